@@ -133,6 +133,8 @@ public:
 	int probe_conn = -1;
 	int sigterm_count = 0;
 	size_t max_alloc_seen = 0;
+	Value *batch_sink = nullptr; int batch_conn = -1;
+	size_t max_message_size = 512;
 	std::function<void(World &)> custom_check; // property specific oracle at quiescence
 	std::function<void(World &)> custom_final;
 
@@ -232,9 +234,11 @@ public:
 	void send_value(int ci, const Value &v, std::vector<ModelEvent> &evs)
 	{
 		CConn &c = cc[ci];
+		if (batch_sink) { batch_sink->push(v); return; }
 		std::string txt = js::dump(v);
 		simk::K().send(c.kc, frame_for(c, txt));
 		ModelEvent e; e.k = ModelEvent::MESSAGE; e.conn = ci; e.msg = v; e.seq = evs.size();
+		if (txt.size() > max_message_size) { e.k = ModelEvent::INVALID; vd.labels.insert("over-long-message"); } // above the configured maximum: the connection ends
 		evs.push_back(e);
 		vd.stat["msgs_sent"]++;
 	}
@@ -298,7 +302,7 @@ public:
 			vd.labels.insert(std::string("fault:") + calls[((op.a % 9) + 9) % 9]);
 			return;
 		}
-		int ci = live_conn(op.conn);
+		int ci = batch_sink ? batch_conn : live_conn(op.conn);
 		if (ci < 0) { vd.stat["noop"]++; return; }
 		CConn &c = cc[ci];
 		if (c.client_ended || k.conns[c.kc].daemon_closed) {
@@ -416,6 +420,50 @@ public:
 		case DRAIN: k.drain(c.kc); return;
 		case CHUNK: { auto &cp = k.conns[c.kc].chunk_plan; for (int x : op.v) cp.push_back((size_t)(x < 1 ? 1 : x)); return; }
 		case JUNK: k.conns[c.kc].junk = ((op.a % 7) + 7) % 7; return;
+		case RAWREQ: {
+			static const std::vector<std::string> ids = {"1", "0", "-7", "2147483647", "2147483648", "-2147483649", "9007199254740992", "1.5", "-0.25", "1e3", "1e10", "1E+2", "0.0",
+			    "\"\"", "\"abc\"", "\"" + std::string(200, 'i') + "\"", "\"\\u00e9\\n\\\"q\\\"\"", "\"123\"", "null", "true", "false", "{}", "[1]", "", "4294967296", "3000000000.5", "\"1\""};
+			const std::string &idt = pick(ids, op.b);
+			Value r = Value::obj();
+			int shape = ((op.a % 26) + 26) % 26;
+			if (shape == 20) r.set("jsonrpc", Value::str("2.0"));
+			if (!idt.empty()) r.set("id", parse_or_null(idt));
+			Value never = Value::obj(); never.set("path", Value::str("never/" + std::to_string(op.c % 3)));
+			auto meth = [&](const char *m) { r.set("method", Value::str(m)); };
+			switch (shape) {
+			case 0: meth("info"); break;
+			case 1: meth("info"); r.set("params", parse_or_null(pick(values(), op.c))); break;
+			case 2: meth("foo"); r.set("params", Value::obj()); break;
+			case 3: r.set("method", Value::num(5)); break;
+			case 4: r.set("method", Value::null()); break;
+			case 5: meth(""); break;
+			case 6: meth("get"); r.set("params", Value::obj()); break;
+			case 7: meth("get"); r.set("params", Value::obj()); r.set("params", Value::obj()); break;
+			case 8: { meth("config"); Value p = Value::obj(); p.set("name", Value::str("n" + std::to_string(op.c))); r.set("params", p); break; }
+			case 9: { meth("config"); Value p = Value::obj(); p.set("name", Value::num(5)); r.set("params", p); break; }
+			case 10: meth("remove"); r.set("params", never); break;
+			case 11: meth("change"); never.set("value", Value::num(1)); r.set("params", never); break;
+			case 12: meth("set"); never.set("value", Value::num(1)); r.set("params", never); break;
+			case 13: meth("call"); r.set("params", never); break;
+			case 14: { meth("unfetch"); Value p = Value::obj(); p.set("id", Value::str("never-fetched")); r.set("params", p); break; }
+			case 15: { meth("authenticate"); Value p = Value::obj(); p.set("user", Value::str("u")); p.set("password", Value::str("p")); r.set("params", p); break; }
+			case 16: { meth("passwd"); Value p = Value::obj(); p.set("user", Value::str("u")); p.set("password", Value::str("p")); r.set("params", p); break; }
+			case 17: meth("get"); break;
+			case 18: meth("get"); r.set("params", Value::arr()); break;
+			case 19: meth("info"); meth("info"); break;
+			case 20: meth("info"); { Value a = Value::arr(); a.push(Value::num(1)); r.set("foo", a); } break;
+			case 21: break; // neither request nor response
+			case 22: r.set("result", parse_or_null(pick(values(), op.c))); break; // unsolicited response object
+			case 23: { Value e = Value::obj(); e.set("code", Value::num(-1)); r.set("error", e); break; }
+			case 24: meth("fetch"); r.set("params", Value::obj()); break; // no fetch id
+			default: meth("add"); r.set("params", Value::str("not an object")); break;
+			}
+			if (shape >= 22 && shape <= 23) vd.labels.insert("incoming-response-object");
+			vd.labels.insert(idt.empty() ? "id:absent" : idt[0] == '"' ? "id:string" : (idt[0] == '-' || isdigit((unsigned char)idt[0])) ? "id:number" : "id:other-type");
+			send_value(ci, r, evs);
+			return;
+		}
+		case BATCH: return; // handled in step()
 		case MUTREQ: {
 			static const char *meths[] = {"add", "remove", "change", "set", "call", "fetch", "unfetch", "get", "config"};
 			int mi = ((op.a % 9) + 9) % 9;
@@ -765,7 +813,30 @@ public:
 		bool first_is_solo = solo(sc.ops[next_op]);
 		while (!first_is_solo && j < sc.ops.size() && sc.ops[j].join && !solo(sc.ops[j])) j++;
 		std::vector<ModelEvent> evs;
-		for (size_t i = next_op; i < j; i++) do_op(sc.ops[i], evs);
+		for (size_t i = next_op; i < j; i++) {
+			const Op &op = sc.ops[i];
+			if (op.kind != BATCH) { do_op(op, evs); continue; }
+			int ci = live_conn(op.conn);
+			size_t n = (size_t)(((op.a % 5) + 5) % 5);
+			Value arr = Value::arr();
+			size_t k = i + 1;
+			if (ci >= 0 && !cc[ci].client_ended && !simk::K().conns[cc[ci].kc].daemon_closed) {
+				batch_sink = &arr; batch_conn = ci;
+				for (; k < sc.ops.size() && k <= i + n; k++) {
+					int kd = sc.ops[k].kind;
+					bool reqkind = kd == ADD || kd == REMOVE || kd == CHANGE || kd == FETCH || kd == UNFETCH || kd == GET || kd == SET || kd == CALL || kd == CONFIG || kd == INFO || kd == RAWREQ || kd == MUTREQ || kd == REPLY;
+					if (!reqkind) break;
+					do_op(sc.ops[k], evs);
+				}
+				batch_sink = nullptr;
+				if (op.b % 7 == 6) arr.push(Value::num(42)); // a member that is not an object ends the connection after the earlier members
+				send_value(ci, arr, evs);
+				vd.labels.insert(arr.a.size() >= 2 ? "batch>=2" : "batch<2");
+				vd.stat["batch_members"] += (long)arr.a.size();
+			} else vd.stat["noop"]++;
+			if (k > j) j = k;
+			i = k - 1;
+		}
 		if (j - next_op > 1) vd.labels.insert("joined-step");
 		next_op = j;
 		step_no++;
